@@ -853,6 +853,26 @@ TERMINATION_EXCEPTIONS = {
 }
 
 
+def _exception_premise(f, loop) -> bool:
+    """The reason of the frozen exception is checked, not trusted: every path from a push-back (`<lit>.back(...)`)
+    inside the loop body back to the loop head passes through the statement that takes `.shape[1]` of the collected
+    coefficients (the one that raises for an empty block).  A `continue` / early branch between the two leaves a
+    cycle that neither consumes a line nor raises."""
+    from .cfg import cfg_of
+
+    cfg = cfg_of(f)
+    backs = [st for st in ast.walk(loop) if isinstance(st, ast.Expr) and isinstance(st.value, ast.Call) and isinstance(st.value.func, ast.Attribute) and st.value.func.attr == "back"]
+    raising = [st for st in ast.walk(loop) if isinstance(st, ast.stmt) and not isinstance(st, (ast.While, ast.For, ast.If, ast.Try, ast.With)) and any(isinstance(x, ast.Subscript) and isinstance(x.value, ast.Attribute) and x.value.attr == "shape" and isinstance(x.slice, ast.Constant) and x.slice.value == 1 for x in ast.walk(st))]
+    if not backs or not raising:
+        return False
+    try:
+        head = cfg.idx(loop)
+        through = [cfg.idx(st) for st in raising]
+        return all(cfg.must_pass([head], through, start=cfg.idx(b)) for b in backs)
+    except (KeyError, ValueError):
+        return False
+
+
 def _structural_progress(cons: Consumption, f, loop):
     """Idiom: the sequence measured by the test is rebound to its own proper suffix on every cycle."""
     t = loop.test
@@ -963,7 +983,7 @@ def check_termination(ctx, prog: Program, lits):
                 key = (f.qualname, " ".join(src_of(n.test).split()))
                 if how:
                     ctx.ok("R4", f"{f.name}: while {src_of(n.test)[:40]}: {how}", where, sample=(nloops % 9 == 1))
-                elif key in TERMINATION_EXCEPTIONS:
+                elif key in TERMINATION_EXCEPTIONS and _exception_premise(f, n):
                     ctx.ok("R4", f"{f.name}: while {src_of(n.test)[:40]}: frozen exception: {TERMINATION_EXCEPTIONS[key]}", where)
                 else:
                     c = "-inf" if cyc <= NEG // 2 else cyc
